@@ -13,6 +13,7 @@ import (
 	"verifharness/c05"
 	"verifharness/c06"
 	"verifharness/c07"
+	"verifharness/c10"
 	"verifharness/c18"
 	"verifharness/nd"
 )
@@ -23,6 +24,8 @@ type entry struct {
 }
 
 var registry = map[string]entry{
+	"c10.RunContract":    {c10.Setup, c10.RunContract},
+	"c10.RunStack":       {c10.Setup, c10.RunStack},
 	"c07.RunSearch":      {c07.Setup, c07.RunSearch},
 	"c07.RunSubstring":   {c07.Setup, c07.RunSubstring},
 	"c07.RunLengthSpace": {c07.Setup, c07.RunLengthSpace},
